@@ -356,12 +356,18 @@ def region_matches_power(S, cfg):
     with patched((power.np, 'around', lambda x, n=0: x)) if sym else patched():
         ap = power.AssemblyPower({'pins': one.copy()}, avg, np.array([0, L * 100], dtype=object if sym else float),
                                  [rod[0] * 100, rod[1] * 100])
-    za = S.nonneg('z_a_frac', 0.0, 1.0)
-    dzf = S.pos('dz_frac', 0.01, 0.3)
-    z_a = L * za / (1 + za + dzf)
-    z_b = L * (za + dzf) / (1 + za + dzf)                                # 0 <= z_a < z_b < L
+    # axial planes lie on the 1e-12 m raster (C05), a step is at least one raster unit; region bounds are arbitrary reals
+    from .c14 import _units
+    Ka = S.int('K_a', 0, 10 ** 12)
+    N = S.int('N_step', 10 ** 9, 10 ** 11)
+    S.assume(Ka >= 0, 'planes start at the core inlet')
+    S.assume(N >= 1, 'a step is at least one raster unit')
+    z_a, z_b = _units(S, Ka), _units(S, Ka + N)                           # 0 <= z_a < z_b
     if cfg.get('last_step'):
-        z_b = L
+        S.assume(z_b >= L, 'last step: ends on the core length')
+        S.assume(z_b <= L, 'last step: ends on the core length')
+    else:
+        S.assume(z_b < L, 'not the last step')
     for b in list(bnd[1:]) + [rod[0], rod[1]]:
         if sym:
             S.assume((b <= z_a) | (b >= z_b), 'no region bound strictly inside the step (C05)')
